@@ -3,10 +3,12 @@ package props
 import (
 	"context"
 	"fmt"
+	"net"
 	"os"
 	"strings"
 	"time"
 
+	"cqlsim/simnet"
 	"cqlsim/simrt"
 	"cqlsim/world"
 
@@ -264,6 +266,19 @@ func c20(e *Env) {
 			}
 		}
 	}
+	// the health-check endpoint is orthogonal to everything checked here: on in a third of the runs
+	if c.Choose("healthcheck", 3) == 2 {
+		e.Res.Stats["probe.c20.health_check_on"]++
+		switch cc.route {
+		case 0:
+			args = append(args, "--health-check")
+		case 1:
+			os.Setenv("HEALTH_CHECK", "true")
+			envSet = append(envSet, "HEALTH_CHECK")
+		case 2:
+			yaml += "health-check: true\n"
+		}
+	}
 	defer func() {
 		for _, k := range envSet {
 			os.Unsetenv(k)
@@ -290,7 +305,16 @@ func c20(e *Env) {
 		exit = proxy.Run(ctx, args)
 		done = true
 	})
-	serving := func() bool { return len(w.N.Listeners()) > 0 }
+	// (serving = accepting: a proxy that binds its address early and then fails to start has refused)
+	cqlListener := func() *simnet.Listener {
+		for _, l := range w.N.Listeners() {
+			if l.Serving() && l.Addr().(*net.TCPAddr).Port != 8000 { // (8000: the health-check endpoint)
+				return l
+			}
+		}
+		return nil
+	}
+	serving := func() bool { return cqlListener() != nil }
 	w.RunUntil(func() bool { return done || serving() }, 5*time.Minute)
 	if w.Stopped() {
 		return
@@ -325,7 +349,7 @@ func c20(e *Env) {
 		w.Violate("c20-version", "protocol-version-not-honoured("+strings.ToLower(cc.opts["protocol-version"])+")", fmt.Sprintf("%s: the backend (which supports every version of its family) saw the first STARTUP with %s, the option names %s", detail, got, cc.wantVer))
 		return
 	}
-	lis := w.N.Listeners()[0]
+	lis := cqlListener()
 	pi := &world.ProxyInst{Listener: lis}
 	// the client gate is the named maximum
 	probe := func(v primitive.ProtocolVersion) message.Message {
